@@ -177,10 +177,17 @@ type c07MemConn struct {
 	data []byte
 	pos  int
 	seg  int // bytes per Read (0 = as many as asked for)
+	cut  int // > 0: no Read crosses this offset (the stream arrives in two segments)
+	// hold != nil: the peer keeps the connection OPEN after the last byte: Read blocks (until
+	// hold is closed by the watchdog) instead of reporting EOF
+	hold chan struct{}
 }
 
 func (c *c07MemConn) Read(p []byte) (int, error) {
 	if c.pos >= len(c.data) {
+		if c.hold != nil {
+			<-c.hold
+		}
 		return 0, io.EOF
 	}
 	if len(p) == 0 {
@@ -189,6 +196,9 @@ func (c *c07MemConn) Read(p []byte) (int, error) {
 	n := len(c.data) - c.pos
 	if c.seg > 0 && n > c.seg {
 		n = c.seg
+	}
+	if c.cut > c.pos && n > c.cut-c.pos {
+		n = c.cut - c.pos
 	}
 	if n > len(p) {
 		n = len(p)
@@ -216,12 +226,49 @@ func c07CountVals(h map[string][]string) int {
 // c07ReadOne runs the fork's response reader on the stream: _readResponse, then the body to its
 // end; the answer is the outcome CLASS the driver lane c07h1pos renders.
 func c07ReadOne(stream []byte, method string, B, seg, readSize int, dumpOn bool) (ans string, panicked bool, ptxt string) {
+	return c07ReadConn(&c07MemConn{data: stream, seg: seg}, method, B, readSize, dumpOn)
+}
+
+// c07Framed: the outcome class says the message ended by its own framing (no body / length /
+// last chunk + trailer section) - nothing after its last byte is needed to finish the call.
+func c07Framed(ans string) bool {
+	return strings.HasPrefix(ans, "ok ") && strings.Contains(ans, " end=eof ") && !strings.Contains(ans, "framing=close") && !strings.Contains(ans, "framing=?")
+}
+
+// c07ReadOpen: the same reader on a connection the peer KEEPS OPEN after the last byte of the
+// stream (delivered seg bytes per read, or in two segments split at cut). A reader that waits
+// for bytes beyond the end of a self-delimited message never returns: answer "wedge".
+func c07ReadOpen(stream []byte, method string, B, seg, cut, readSize int, dumpOn bool) (ans string, panicked bool, ptxt string) {
+	conn := &c07MemConn{data: stream, seg: seg, cut: cut, hold: make(chan struct{})}
+	type res struct {
+		ans, ptxt string
+		panicked  bool
+	}
+	done := make(chan res, 1)
+	go func() {
+		a, p, t := c07ReadConn(conn, method, B, readSize, dumpOn)
+		done <- res{a, t, p}
+	}()
+	select {
+	case r := <-done:
+		return r.ans, r.panicked, r.ptxt
+	case <-time.After(3 * time.Second):
+		close(conn.hold)
+		select {
+		case <-done:
+		case <-time.After(3 * time.Second):
+		}
+		return "wedge", false, ""
+	}
+}
+
+func c07ReadConn(conn *c07MemConn, method string, B, readSize int, dumpOn bool) (ans string, panicked bool, ptxt string) {
+	stream := conn.data
 	ptxt, panicked = verifh.Safely(func() {
 		t := &Transport{}
 		if dumpOn {
 			t.Dump = newDumper(&DumpOptions{Output: io.Discard, ResponseHeader: true, ResponseBody: true})
 		}
-		conn := &c07MemConn{data: stream, seg: seg}
 		pc := &persistConn{t: t, conn: conn}
 		pc.br = bufio.NewReaderSize(pc, B)
 		pc.readLimit = pc.maxHeaderResponseSize()
@@ -278,10 +325,12 @@ func c07ReadOne(stream []byte, method string, B, seg, readSize int, dumpOn bool)
 // TestVerif_C07_h1pos: the matrix against the Lean model, in-package.
 func TestVerif_C07_h1pos(t *testing.T) {
 	s := verifh.New(t, "C07", "h1pos",
-		"byte-position matrix: every byte value 0x00..0xff at every syntactic position of an HTTP/1.x response (13 status-line positions incl. a 1xx head, 12 field-name positions incl. 1xx and trailer names, field value / CR / LF, continuation lines, Content-Length / Transfer-Encoding / Connection / Trailer values, chunk-size line / extension / data terminator / last chunk, trailer value and end) x method GET/HEAD x delivery (whole, 1 byte per read) x dump off/on; real persistConn._readResponse + body drain vs Lean H1.parseResponse on the outcome class (rej | ok code framing #keys #values body-end body-length #trailers); a recovered panic is a disagreement with the total model; every case non-trivial")
+		"byte-position matrix: every byte value 0x00..0xff at every syntactic position of an HTTP/1.x response (13 status-line positions incl. a 1xx head, 12 field-name positions incl. 1xx and trailer names, field value / CR / LF, continuation lines, Content-Length / Transfer-Encoding / Connection / Trailer values, chunk-size line / extension / data terminator / last chunk, trailer value and end) x method GET/HEAD x delivery (whole, 1 byte per read) x dump off/on x what the peer does after the last byte (closes; for every stream whose outcome class is self-delimited - no body / length / last chunk + trailer section - also KEEPS THE CONNECTION OPEN, 1 byte per read, and, one representative stream per position, delivered in two segments split at EVERY offset); real persistConn._readResponse + body drain vs Lean H1.parseResponse on the outcome class (rej | ok code framing #keys #values body-end body-length #trailers); a reader that waits for bytes beyond the end of the message on the open connection answers `wedge` (3 s), a disagreement; a recovered panic is a disagreement with the total model; every case non-trivial")
 	poss := c07H1Positions()
 	bytesAll := c07ByteSet(true)
 	n := 0
+	repr := map[string][]byte{} // position -> first stream with a self-delimited outcome
+	wedges := 0
 	for _, p := range poss {
 		for _, b := range bytesAll {
 			stream := p.build(b)
@@ -314,10 +363,59 @@ func TestVerif_C07_h1pos(t *testing.T) {
 					continue
 				}
 				s.Count(strings.SplitN(ans, " ", 2)[0])
+				if c07Framed(ans) {
+					if _, ok := repr[p.name]; !ok && method == "GET" {
+						repr[p.name] = append([]byte(nil), stream...)
+					}
+					// the same stream, one byte per read, on a connection the peer keeps open: the
+					// outcome must be the same (a different one is reported instead of it)
+					if wedges < 3 {
+						s.Count("open-conn:1-byte-reads")
+						oans, _, optxt := c07ReadOpen(stream, method, 4096, 1, 0, 512, dumpOn)
+						if oans != ans {
+							if oans == "wedge" {
+								wedges++
+							}
+							s.Case(line, "open-connection seg=1: "+oans+" "+truncate(optxt, 500), false, "", true, human+" [connection kept open after the last byte, 1 byte per read]")
+							n++
+							continue
+						}
+					}
+				}
 				s.Case(line, ans, true, "", true, human)
 				n++
 			}
 		}
+	}
+	// class: delivery in two segments split at EVERY offset of a self-delimited message (one
+	// representative per position: the first byte value that gives one), connection kept open
+	names := make([]string, 0, len(repr))
+	for _, p := range poss {
+		if _, ok := repr[p.name]; ok {
+			names = append(names, p.name)
+		}
+	}
+	for _, name := range names {
+		stream := repr[name]
+		for cut := 1; cut < len(stream) && wedges < 3; cut++ {
+			ans, panicked, ptxt := c07ReadOpen(stream, "GET", 4096, 0, cut, 512, false)
+			human := fmt.Sprintf("position %s two segments split at offset %d (%q | %q), connection kept open, method=GET stream=%q", name, cut, stream[:cut], stream[cut:], stream)
+			line := "c07h1pos G 4096 " + verifh.Hex(string(stream))
+			s.Count("open-conn:two-segments")
+			if panicked {
+				s.Count("panic")
+				s.Case(line, "panic: "+truncate(ptxt, 1500), false, "", true, human)
+				continue
+			}
+			if ans == "wedge" {
+				wedges++
+				s.Count("wedge")
+			}
+			s.Case(line, ans, true, "", true, human)
+		}
+	}
+	if wedges >= 3 {
+		s.Count("open-conn:stopped-after-3-wedges")
 	}
 	s.Finish()
 }
